@@ -82,12 +82,122 @@ pub proof fn lemma_fold_member2(es: Seq<Exp>, env: Env, is_min: bool, n: int, i:
 {
     if n > 1 && i < n - 1 { lemma_fold_member2(es, env, is_min, n - 1, i); }
 }
-// PRUNING: dropping dominated operands does not change the extreme inside the box (and keeps it defined)
+// least index with a property
+pub proof fn lemma_least(n: int, p: spec_fn(int) -> bool)
+    requires exists|i: int| 0 <= i < n && #[trigger] p(i),
+    ensures exists|d: int| 0 <= d < n && #[trigger] p(d) && (forall|j: int| 0 <= j < d ==> !#[trigger] p(j)),
+    decreases n,
+{
+    if n <= 0 { }
+    else if exists|i: int| 0 <= i < n - 1 && #[trigger] p(i) { lemma_least(n - 1, p); }
+    else {
+        assert(p(n - 1));
+        assert(forall|j: int| 0 <= j < n - 1 ==> !#[trigger] p(j));
+    }
+}
+// a fold over operands that never pass m (on the relevant side) and attain it somewhere is m
+pub proof fn lemma_fold_attained(es: Seq<Exp>, env: Env, is_min: bool, n: int, m: real)
+    requires 0 < n <= es.len(),
+        forall|k: int| 0 <= k < n ==> (sem(#[trigger] es[k], env) matches Some(v) && (if is_min { m <= v } else { m >= v })),
+        exists|k: int| 0 <= k < n && sem(#[trigger] es[k], env) == Some(m),
+    ensures sem_fold(es, env, is_min, n) == Some(m),
+    decreases n,
+{
+    if n == 1 { }
+    else {
+        if exists|k: int| 0 <= k < n - 1 && sem(#[trigger] es[k], env) == Some(m) {
+            lemma_fold_attained(es, env, is_min, n - 1, m);
+        } else {
+            assert(sem(es[n - 1], env) == Some(m));
+            // the prefix is defined and stays on the right side of m
+            lemma_fold_side(es, env, is_min, n - 1, m);
+        }
+    }
+}
+pub proof fn lemma_fold_side(es: Seq<Exp>, env: Env, is_min: bool, n: int, m: real)
+    requires 0 < n <= es.len(), forall|k: int| 0 <= k < n ==> (sem(#[trigger] es[k], env) matches Some(v) && (if is_min { m <= v } else { m >= v })),
+    ensures sem_fold(es, env, is_min, n) matches Some(f) && (if is_min { m <= f } else { m >= f }),
+    decreases n,
+{
+    if n > 1 { lemma_fold_side(es, env, is_min, n - 1, m); }
+}
+// PRUNING: dropping dominated operands does not change the extreme inside the box (and keeps it defined).
+// Argument: among the operands attaining the extreme m, one is not dominated.  If all were dominated, a dominator of an attaining
+// operand attains m too and its range starts (ends) at m; being dominated itself its range is the single point m; the one of
+// least index among those single-point operands would need a dominator of smaller index of the same kind: contradiction.
 pub proof fn lemma_prune(is_min: bool, es: Seq<Exp>, ob: Seq<Bounds>, ri: Seq<usize>, b: BoundsAnalyzer, env: Env)
     requires ob.len() == es.len(), ob_ok(ob, es, b, es.len() as int), ri_ok(is_min, ob, ri, es.len() as int, es.len() as int), box_ok(b, env), ext_val(es, env, is_min) is Some,
     ensures ri.len() > 0, ext_val(pick(es, ri), env, is_min) == ext_val(es, env, is_min),
 {
-    admit();   // TODO: to be proved (dominance chains end in a retained operand)
+    reveal(ob_ok); reveal(ri_ok);
+    let n = es.len() as int;
+    let m = ext_val(es, env, is_min)->Some_0;
+    // every operand is defined, lies in its range and does not pass m
+    assert forall|i: int| 0 <= i < n implies (sem(#[trigger] es[i], env) matches Some(v) && (if is_min { m <= v } else { m >= v }) && contains(ob[i], v) && wf(ob[i])) by {
+        lemma_fold_member2(es, env, is_min, n, i);
+        assert(encl(ob[i], es[i], b));
+    }
+    let val = |i: int| sem(es[i], env)->Some_0;
+    lemma_fold_hits(es, env, is_min, n);
+    let i0 = choose|i: int| 0 <= i < n && sem(#[trigger] es[i], env) == Some(m);
+    // (*) a dominator j of an operand i attaining m attains m, ob[j] starts (max) / ends (min) at m and ob[i] ends / starts at m
+    assert forall|i: int, j: int| 0 <= i < n && 0 <= j < n && val(i) == m && #[trigger] dominates(is_min, ob, j, i) implies
+        val(j) == m && (if is_min { fv(ob[j].upper) == Ext::Fin(m) && fv(ob[i].lower) == Ext::Fin(m) } else { fv(ob[j].lower) == Ext::Fin(m) && fv(ob[i].upper) == Ext::Fin(m) }) by {
+        assert(sem(es[i], env) is Some && sem(es[j], env) is Some);
+    }
+    // an attaining operand that no operand dominates
+    let free = |i: int| 0 <= i < n && val(i) == m && !has_dom(is_min, ob, n, i);
+    if !exists|i: int| #[trigger] free(i) {
+        // all attaining operands are dominated
+        assert(val(i0) == m);
+        assert(!free(i0)); assert(has_dom(is_min, ob, n, i0));
+        let j1 = choose|j: int| 0 <= j < n && #[trigger] dominates(is_min, ob, j, i0);
+        assert(dominates(is_min, ob, j1, i0));
+        assert(val(j1) == m);
+        assert(!free(j1)); assert(has_dom(is_min, ob, n, j1));
+        let j2 = choose|j: int| 0 <= j < n && #[trigger] dominates(is_min, ob, j, j1);
+        assert(dominates(is_min, ob, j2, j1));
+        // j1 is a single point at m
+        let point = |i: int| 0 <= i < n && val(i) == m && fv(ob[i].lower) == Ext::Fin(m) && fv(ob[i].upper) == Ext::Fin(m);
+        assert(point(j1));
+        lemma_least(n, point);
+        let d = choose|d: int| 0 <= d < n && #[trigger] point(d) && (forall|j: int| 0 <= j < d ==> !#[trigger] point(j));
+        assert(val(d) == m);
+        assert(!free(d)); assert(has_dom(is_min, ob, n, d));
+        let j = choose|j: int| 0 <= j < n && #[trigger] dominates(is_min, ob, j, d);
+        assert(dominates(is_min, ob, j, d));
+        assert(val(j) == m);
+        assert(!free(j)); assert(has_dom(is_min, ob, n, j));
+        let j3 = choose|k: int| 0 <= k < n && #[trigger] dominates(is_min, ob, k, j);
+        assert(dominates(is_min, ob, j3, j));
+        assert(point(j));
+        assert(j < d);     // equal single points: only a smaller index dominates
+        assert(false);
+    }
+    let r = choose|i: int| #[trigger] free(i);
+    assert(kept(ri, r));
+    let kr = choose|k: int| 0 <= k < ri.len() && #[trigger] ri[k] as int == r;
+    let ps = pick(es, ri);
+    assert(ps[kr] == es[r]);
+    assert forall|k: int| 0 <= k < ps.len() implies (sem(#[trigger] ps[k], env) matches Some(v) && (if is_min { m <= v } else { m >= v })) by {
+        assert(ps[k] == es[ri[k] as int]);
+    }
+    assert(sem(ps[kr], env) == Some(m));
+    lemma_fold_attained(ps, env, is_min, ps.len() as int, m);
+}
+// a defined fold is attained by one of its operands
+pub proof fn lemma_fold_hits(es: Seq<Exp>, env: Env, is_min: bool, n: int)
+    requires 0 < n <= es.len(), sem_fold(es, env, is_min, n) is Some,
+    ensures exists|i: int| 0 <= i < n && sem(#[trigger] es[i], env) == sem_fold(es, env, is_min, n),
+    decreases n,
+{
+    if n > 1 {
+        lemma_fold_hits(es, env, is_min, n - 1);
+        let i = choose|i: int| 0 <= i < n - 1 && sem(#[trigger] es[i], env) == sem_fold(es, env, is_min, n - 1);
+        let x = sem(es[n - 1], env)->Some_0; let y = sem_fold(es, env, is_min, n - 1)->Some_0;
+        if (if is_min { rmin(y, x) } else { rmax(y, x) }) == y { assert(sem(es[i], env) == sem_fold(es, env, is_min, n)); }
+        else { assert(sem(es[n - 1], env) == sem_fold(es, env, is_min, n)); }
+    } else { assert(sem(es[0], env) == sem_fold(es, env, is_min, n)); }
 }
 // ----- exact lowering: selectors and big-M rows -----
 #[verifier::opaque]
